@@ -1025,6 +1025,36 @@ func replicateAfterPersist(ud pb.Update) bool {
 	return ud.LeaderUpdate.Term != 0
 }
 
+// replicateToWitness returns a boolean flag indicating whether the specified
+// Replicate message might be addressed to a witness. A witness is only ever
+// sent metadata and config change entries. It can vote but it can never
+// become the leader, entries it received from a leader that crashed before
+// persisting them would thus leave it with a log that is more up to date
+// than the logs of the regular replicas, it would then reject their vote
+// requests without being able to take over itself. Such messages are sent
+// once the entries in the same update are persisted locally.
+func replicateToWitness(m pb.Message) bool {
+	if m.Type != pb.Replicate || len(m.Entries) == 0 {
+		return false
+	}
+	for i := range m.Entries {
+		if m.Entries[i].Type != pb.MetadataEntry &&
+			m.Entries[i].Type != pb.ConfigChangeEntry {
+			return false
+		}
+	}
+	return true
+}
+
+func (n *node) sendWitnessReplicateMessages(ud pb.Update) {
+	for _, msg := range ud.Messages {
+		if replicateToWitness(msg) {
+			msg.ShardID = n.shardID
+			n.sendRaftMessage(msg)
+		}
+	}
+}
+
 func (n *node) sendReplicateMessages(ud pb.Update) {
 	// Replicate messages are sent before the entries in the same update are
 	// persisted. A leader with a single node quorum commits entries as soon as
@@ -1034,7 +1064,7 @@ func (n *node) sendReplicateMessages(ud pb.Update) {
 	// lost by the leader in a crash.
 	_, persisted := n.logReader.GetRange()
 	for _, msg := range ud.Messages {
-		if isFreeOrderMessage(msg) {
+		if isFreeOrderMessage(msg) && !replicateToWitness(msg) {
 			msg.ShardID = n.shardID
 			if msg.Type == pb.Replicate && msg.Commit > persisted {
 				msg.Commit = persisted
@@ -1130,6 +1160,7 @@ func (n *node) processRaftUpdate(ud pb.Update) error {
 	if replicateAfterPersist(ud) {
 		n.sendReplicateMessages(ud)
 	}
+	n.sendWitnessReplicateMessages(ud)
 	n.sendMessages(ud.Messages)
 	if err := n.removeLog(); err != nil {
 		return err
